@@ -1,5 +1,6 @@
 import Driver.Proto
 import Driver.C09
+import Driver.C09Lex
 import IronCalc.Generated.ParenMove
 import Driver.C18
 import Driver.C19
@@ -32,6 +33,7 @@ open Driver
 
 def dispatch (fs : List String) : String :=
   match fs with
+  | "c09lex" :: rest => Driver.c09lex rest
   | "c09" :: rest => Driver.c09 IronCalc.Generated.parenStringify rest
   | "c16" :: rest => Driver.c16 IronCalc.Generated.parenStringify IronCalc.Generated.parenMove rest
   | "c18" :: rest => Driver.c18 rest
